@@ -73,34 +73,63 @@ def run_semantic(res, b, tier, seed, prop, make_cfgs, transform=None, n_quick=40
                           meta=dict(expected_out=j["stdout"], expected_status=j["status"], src=j["src"], corpus=name))
         cases.append(c)
     total_w = sum(w for w, _ in cfgs)
-    for i in range(n):
-        x = rng.random() * total_w
-        for w, cfg in cfgs:
-            x -= w
-            if x <= 0:
-                break
-        g = gen_prog.generate2(rng, cfg, (lambda p: transform(rng, p)) if transform else None)
-        if g is None:
-            continue
-        prog, src, out, status, ks = g
-        for k, v in ks.items():
-            kinds[k] = kinds.get(k, 0) + v
-        cases.append(pipeline.Case("g%d" % i, {"main.tsh": src.encode()}, meta=dict(expected_out=out, expected_status=status, src=src)))
-    dis, fails = semcheck.check_cases(b, cases)
-    if extra_oracle:
-        fails += extra_oracle(b, cases)
-    distinct = len({c.out.get("AST", ("", ""))[1] for c in cases if c.out.get("AST", ("", ""))[0] == "OK"})
+    dis, fails = [], []
+    distinct_set = set()
+    all_cases = []
+    printed = exit1 = 0
+    samples = []
+    BATCH = 500           # bounded memory: cases are generated, checked and dropped batch by batch
+    done = 0
+    first = True
+    while done < n or first:
+        m = min(BATCH, n - done)
+        for i in range(done, done + m):
+            x = rng.random() * total_w
+            for w, cfg in cfgs:
+                x -= w
+                if x <= 0:
+                    break
+            g = gen_prog.generate2(rng, cfg, (lambda p: transform(rng, p)) if transform else None)
+            if g is None:
+                continue
+            prog, src, out, status, ks = g
+            for k, v in ks.items():
+                kinds[k] = kinds.get(k, 0) + v
+            cases.append(pipeline.Case("g%d" % i, {"main.tsh": src.encode()}, meta=dict(expected_out=out, expected_status=status, src=src)))
+        d1, f1 = semcheck.check_cases(b, cases)
+        if extra_oracle:
+            f1 += extra_oracle(b, cases)
+        dis += d1
+        fails += f1
+        for c in cases:
+            if c.out.get("AST", ("", ""))[0] == "OK":
+                distinct_set.add(hash(c.out["AST"][1]))
+            printed += len(c.meta["expected_out"])
+            exit1 += 1 if c.meta["expected_status"] == 1 else 0
+        if not samples:
+            samples = [dict(src=c.meta["src"][:600], expected_stdout=c.meta["expected_out"][:5], expected_status=c.meta["expected_status"]) for c in cases[:2]]
+        keep = {id(c) for c, _, _ in f1} | {id(c) for c, _, _ in d1}
+        for c in cases:
+            if id(c) not in keep:
+                c.out.clear()
+                c.meta = dict(src=c.meta.get("src", ""), expected_out=c.meta.get("expected_out"), expected_status=c.meta.get("expected_status"))
+        all_cases.append(len(cases))
+        cases = []
+        done += m
+        first = False
+        if len(fails) > 50:
+            break
+    distinct = len(distinct_set)
+    ncases = sum(all_cases)
     res.coverage.update(dict(
-        evaluations=len(cases),
+        evaluations=ncases,
         distinct_nontrivial=distinct,
         rule="type-directed random programs of the property's fragment with a reference result (Python reference interpreter = Go meaning "
              "with the README caveats); distinct = distinct ASTs returned by the real parser; every case is transpiled by the real code, "
              "compared byte-for-byte with the Lean emitter model, executed under /bin/bash and compared with the reference result",
-        samples=[dict(src=c.meta["src"][:600], expected_stdout=c.meta["expected_out"][:5], expected_status=c.meta["expected_status"]) for c in cases[:2]],
-        correspondence=dict(stage="bash script (Model.EmitBash on the implementation's AST vs transpiler+converters/bash)", compared=len(cases), disagreements=len(dis)),
-        generator_distribution=dict(statement_kinds=kinds,
-                                    lines_printed=sum(len(c.meta["expected_out"]) for c in cases),
-                                    exit_1=sum(1 for c in cases if c.meta["expected_status"] == 1)),
+        samples=samples,
+        correspondence=dict(stage="AST and bash script of the whole model pipeline (Model.Lexer, Model.Parser, Model.Transpile, Model.ConvBash) vs the implementation", compared=ncases, disagreements=len(dis)),
+        generator_distribution=dict(statement_kinds=kinds, lines_printed=printed, exit_1=exit1),
         oracle_failures=len(fails),
     ))
     res.assumptions += ["the Python reference interpreter states the Go meaning (README caveats) correctly",
@@ -122,6 +151,6 @@ def run_semantic(res, b, tier, seed, prop, make_cfgs, transform=None, n_quick=40
             res.violation("correspondence", dict(stage="bash script", src=c.meta["src"], model=m[:4000], implementation=i[:4000],
                                                  disagreements=len(dis),
                                                  what="Model.EmitBash and transpiler+converters/bash disagree on the script; the theorems no longer speak about this code; "
-                                                      "the oracle found no program whose behaviour is wrong in %d programs" % len(cases)), no_input=True)
+                                                      "the oracle found no program whose behaviour is wrong in %d programs" % ncases), no_input=True)
         else:
             res.violation("theorem", dict(broken=pr["broken"], log=pr["log"][-3000:]), no_input=True)
